@@ -99,12 +99,17 @@ fn unescape(literal: &str) -> Result<Text, Text> {
                     None
                 }
                 EscapeState::UnicodeEscape3(d1, d2, d3) if c.is_ascii_hexdigit() => {
-                    let uc: char = char::try_from(
-                        (*d1 << 12) | (*d2 << 8) | (*d3 << 4) | c.to_digit(16).unwrap(),
-                    )
-                    .unwrap();
-                    *state = EscapeState::None;
-                    Some(uc)
+                    let code_point =
+                        (*d1 << 12) | (*d2 << 8) | (*d3 << 4) | c.to_digit(16).unwrap();
+                    if let Ok(uc) = char::try_from(code_point) {
+                        *state = EscapeState::None;
+                        Some(uc)
+                    } else {
+                        // Surrogate code points are not characters.
+                        *state = EscapeState::Failed;
+                        failed = true;
+                        None
+                    }
                 }
                 EscapeState::Failed => None,
                 _ => {
